@@ -70,7 +70,14 @@ func runSolver(ctx context.Context, s solverSpec, query string, hardMs int) (sta
 	err := cmd.Run()
 	ms = time.Since(t0).Milliseconds()
 	out = buf.String()
-	first := strings.TrimSpace(strings.SplitN(out, "\n", 2)[0])
+	first := ""
+	for _, ln := range strings.Split(out, "\n") {
+		ln = strings.TrimSpace(ln)
+		if ln == "unsat" || ln == "sat" || ln == "unknown" || ln == "timeout" {
+			first = ln
+			break
+		}
+	}
 	switch first {
 	case "unsat", "sat", "unknown":
 		return first, out, ms
